@@ -71,6 +71,10 @@ func run(c *hlib.Ctx) {
 	for i := 0; i < n/2+1; i++ {
 		caseSTLChunked(c, i)
 	}
+	// ASCII STL with runs of spaces / tabs between tokens (last: earlier random streams unchanged)
+	for i := 0; i < n/4+2; i++ {
+		caseSTLWs(c, i)
+	}
 }
 
 // ---------------------------------------------------------------------------
